@@ -193,3 +193,33 @@ Example stale_removenode_closed :
                          [2; 1; 1; 1; 1; 1; 1; 1; 0; 2; 2; 2; 2; 2; 0; 0] [] in
   forallb finished ts' = true /\ ref_ok w' = true.
 Proof. vm_compute. split; reflexivity. Qed.
+
+(* all TRIPLES of pod / node operations: after the repair of RemoveNode every bad
+   quiescent end is explained by the AddNode||RemovePod window alone *)
+Definition t_ops : list rop := [OAddPod "p"; ORemovePod "p"; OAddNode "n" "p"; ORemoveNode "n"].
+Definition t_worlds : list rw := [W1; W2].
+Definition check_triples : bool :=
+  forallb (fun w => forallb (fun a => forallb (fun b => forallb (fun c =>
+     explore 64 verdict2 w (mk_threads [(a, None); (b, None); (c, None)]) []) t_ops) t_ops) t_ops) t_worlds.
+Lemma check_triples_ok : check_triples = true.
+Proof. vm_compute. reflexivity. Qed.
+
+Theorem triples_partial : forall w a b c sched w' ts' tr',
+  In w t_worlds -> In a t_ops -> In b t_ops -> In c t_ops ->
+  run_sched w (mk_threads [(a, None); (b, None); (c, None)]) sched [] = (w', ts', tr') ->
+  (forallb finished ts' = true \/ enabled_steps w' ts' <> []) /\
+  (forallb finished ts' = true ->
+   ref_ok w' = true \/ window_addnode_removepod tr' = true \/ window_create_removenode tr' = true).
+Proof.
+  intros w a b c sched w' ts' tr' Hw Ha Hb Hc R.
+  assert (E : explore 64 verdict2 w (mk_threads [(a, None); (b, None); (c, None)]) [] = true).
+  { pose proof check_triples_ok as C. unfold check_triples in C.
+    pose proof (forallb_In _ _ _ C Hw) as C1. cbv beta in C1.
+    pose proof (forallb_In _ _ _ C1 Ha) as C2. cbv beta in C2.
+    pose proof (forallb_In _ _ _ C2 Hb) as C3. cbv beta in C3.
+    exact (forallb_In _ _ _ C3 Hc). }
+  split; [exact (explore_no_deadlock _ _ _ _ _ E _ _ _ _ R)|].
+  intros F. pose proof (explore_sound _ _ _ _ _ E _ _ _ _ R F) as V. unfold verdict2 in V.
+  apply orb_true_iff in V. destruct V as [V|V]; [|right; right; exact V].
+  apply orb_true_iff in V. destruct V as [V|V]; [left; exact V | right; left; exact V].
+Qed.
